@@ -237,11 +237,97 @@ static string run_art(const vector<string> &a) {
   return res.str();
 }
 
+// payload: artn <step>,...   all four output ports, configuration changes in mid-history
+//   step: dt:addr:net:univ:lenfield:datahex | e:port:univ | d:port | m:port:ltp | s:subnet | n:net
+static int g_pcb[4];
+static void on_port_cb(int i) { g_pcb[i]++; }
+
+static string run_artn(const vector<string> &a) {
+  using ola::network::IPV4Address;
+  using namespace ola::plugin::artnet;  // NOLINT
+  g_now_us = T0;
+  ola::Clock clock;
+  ola::io::SelectServer ss(NULL, &clock);
+  ola::network::InterfaceBuilder ib;
+  ib.SetAddress("10.0.0.1");
+  ib.SetSubnetMask("255.0.0.0");
+  ib.SetBroadcast("10.255.255.255");
+  ib.SetHardwareAddress(ola::network::MACAddress::FromStringOrDie("0a:0b:0c:12:34:56"));
+  ola::network::Interface iface = ib.Construct();
+  ola::testing::MockUDPSocket *sock = new ola::testing::MockUDPSocket();
+  sock->SetDiscardMode(true);
+  ArtNetNodeOptions opts;
+  std::ostringstream res;
+  {
+    ArtNetNode node(iface, &ss, opts, sock);
+    ola::DmxBuffer out[4];
+    for (int p = 0; p < 4; p++)
+      node.SetDMXHandler(p, &out[p], ola::NewCallback(&on_port_cb, p));
+    if (!node.Start()) return "start=failed";
+    ss.RemoveReadDescriptor(sock);
+    vector<string> steps = vh::split(a[1], ',');
+    for (size_t i = 0; i < steps.size(); i++) {
+      vector<string> f = vh::split(steps[i], ':');
+      if (i) res << ";";
+      if (f[0] == "e" || f[0] == "d" || f[0] == "m" || f[0] == "s" || f[0] == "n") {
+        if (f[0] == "e") node.SetOutputPortUniverse(vh::num(f[1]), vh::num(f[2]));
+        else if (f[0] == "d") node.DisableOutputPort(vh::num(f[1]));
+        else if (f[0] == "m") node.SetMergeMode(vh::num(f[1]), vh::num(f[2]) ? ARTNET_MERGE_LTP : ARTNET_MERGE_HTP);
+        else if (f[0] == "s") node.SetSubnetAddress(vh::num(f[1]));
+        else node.SetNetAddress(vh::num(f[1]));
+        res << "o" << i << "=c|" << static_cast<int>(node.NetAddress()) << "|";
+        for (int p = 0; p < 4; p++) {
+          if (p) res << "/";
+          res << (node.OutputPortState(p) ? 1 : 0) << "." << static_cast<int>(node.GetOutputPortUniverse(p));
+        }
+        continue;
+      }
+      g_now_us += vh::num(f[0]);
+      vector<uint8_t> data = vh::unhex(f[5]);
+      unsigned lenf = vh::num(f[4]);
+      vector<uint8_t> pk;
+      const char id[] = "Art-Net";
+      pk.insert(pk.end(), id, id + 8);
+      pk.push_back(0x00); pk.push_back(0x50);
+      pk.push_back(0); pk.push_back(14);
+      pk.push_back(static_cast<uint8_t>(i));
+      pk.push_back(1);
+      pk.push_back(static_cast<uint8_t>(vh::num(f[3])));
+      pk.push_back(static_cast<uint8_t>(vh::num(f[2])));
+      pk.push_back(lenf >> 8); pk.push_back(lenf & 255);
+      pk.insert(pk.end(), data.begin(), data.end());
+      for (int p = 0; p < 4; p++) g_pcb[p] = 0;
+      ss.RunOnce();
+      sock->InjectData(pk.data(), pk.size(), IPV4Address(static_cast<uint32_t>(vh::num(f[1]))), 6454);
+      res << "o" << i << "=";
+      for (int p = 0; p < 4; p++) {
+        if (p) res << "/";
+        res << g_pcb[p] << "." << buf_hex(out[p]);
+      }
+      res << ";t" << i << "=";
+      for (int p = 0; p < 4; p++) {
+        if (p) res << "/";
+        ArtNetNodeImpl::OutputPort &op = node.m_impl.m_output_ports[p];
+        res << (op.is_merging ? 1 : 0) << "|";
+        for (unsigned k = 0; k < ArtNetNodeImpl::MAX_MERGE_SOURCES; k++) {
+          if (k) res << "+";
+          res << op.sources[k].address.AsInt() << "." << ts_us(op.sources[k].timestamp) << "."
+              << buf_hex(op.sources[k].buffer);
+        }
+      }
+    }
+    node.Stop();
+  }
+  res << ";txt=1";
+  return res.str();
+}
+
 static string handle(const string &p) {
   vector<string> a = vh::split(p);
   if (a[0] == "sacn") return run_sacn(a, false);
   if (a[0] == "sacnw") return run_sacn(a, true);
   if (a[0] == "art") return run_art(a);
+  if (a[0] == "artn") return run_artn(a);
   if (a[0] == "consts") {
     std::ostringstream o;
     o << "expiry_us=" << ola::acn::DMPE131Inflator::EXPIRY_INTERVAL.AsInt();
